@@ -3,8 +3,10 @@
 Generator: boundary lattices (+-2^31, +-2^32, +-2^53, +-2^63, 2^64, each +-1 and, as doubles, +-1 ulp;
 x.5 neighbours of the int32 bounds; subnormals; +-0; +-inf; NaNs), random 64-bit patterns, numeric
 and non-numeric strings (every isspace() byte as leading whitespace, signs, overflowing digit
-strings, trailing garbage, embedded NUL, empty, strtod-only forms), all five accessors on every
-node kind, set-then-get, and all (value, increment) pairs of the integer lattice squared.
+strings, trailing garbage, embedded NUL, empty, strtod-only forms incl. the texts that ARE an infinity),
+all five accessors on every node kind, set-then-get, and all (value, increment) pairs of the integer
+lattice squared.  Any call may be preceded by an errno preset ("@<c>" prefix): the value and the errno
+a call sets must be as documented whatever errno the caller had.
 
 Direct oracle: a Python model of the DOCUMENTED behaviour (json_object.h + the property text), in
 exact big-integer arithmetic; it shares nothing with the Coq model.
@@ -277,14 +279,26 @@ def known_witness(op, arg, node):
     return None
 
 
+# an op may carry "@<c>": errno is preset to that value immediately before the call (instead of 0)
+PRESET = {"0": "0", "R": "ERANGE", "I": "EINVAL", "M": "ENOMEM", "X": "EOTHER"}
+
+
+def op_split(o):
+    """'@Rgd' -> ('gd', '', 'R');  'sl5' -> ('sl', '5', '0')"""
+    pre = "0"
+    if o[0] == "@":
+        pre, o = o[1], o[2:]
+    return o[:2], o[2:], pre
+
+
 def split_line(line):
     _, node, orc, ops = line.split(" ", 3)
-    return jvtext.parse(node)[0], orc, [(o[:2], o[2:]) for o in ops.split(";")]
+    return jvtext.parse(node)[0], orc, [op_split(o) for o in ops.split(";")]
 
 
 def first_witness(line):
     node, _, ops = split_line(line)
-    for op, arg in ops:
+    for op, arg, _pre in ops:
         w = known_witness(op, arg, node)
         if w:
             return w
@@ -308,25 +322,32 @@ def oracle(line, meta, impl):
     steps = impl.split(" | ")
     if len(steps) != len(ops):
         return ("malformed", "unexpected driver output: " + impl[:120])
-    for (op, arg), st in zip(ops, steps):
+    for (op, arg, pre), st in zip(ops, steps):
         t = st.split(" ")
         k = kind(node)
+        pn = PRESET[pre]                       # the errno the caller had
+        sfx = "" if pre == "0" else "_preset"  # a failure that needs a preset errno is its own class
         if op[0] == "g":
             if len(t) != 2:
                 return ("malformed", "unexpected driver output: " + st[:80])
             want, errs = spec_get(op, node)
+            if errs == {"0"}:
+                # no error documented for this call: get_boolean documents no errno at all (the caller's value
+                # must survive); the numeric accessors "do not clear the value for you" but may (json_object.h NOTE)
+                errs = {pn} if op == "gb" else {"0", pn}
             got = int(t[0], 16) if op == "gd" else int(t[0])
             if got != want:
-                cls = "%s_%s_value" % (op, k)
+                cls = "%s_%s_value%s" % (op, k, sfx)
                 if op == "gu" and k == "str" and doc_parse_int(node)[1]:
                     cls = CLS_WRAP
-                return (cls, "%s on %s returned %s, documented %s (errno %s)" % (
-                    op, ndump(node)[:60], t[0], ("%016x" % want) if op == "gd" else want, t[1]))
+                return (cls, "%s on %s (errno %s before the call) returned %s, documented %s (errno %s)" % (
+                    op, ndump(node)[:60], pn, t[0], ("%016x" % want) if op == "gd" else want, t[1]))
             if t[1] not in errs:
-                cls = "%s_%s_errno" % (op, k)
+                cls = "%s_%s_errno%s" % (op, k, sfx)
                 if op == "gu" and k == "str" and doc_parse_int(node)[1] and t[1] == "0":
                     cls = CLS_ERRNO
-                return (cls, "%s on %s returned %s with errno %s, documented %s" % (op, ndump(node)[:60], t[0], t[1], "/".join(sorted(errs))))
+                return (cls, "%s on %s (errno %s before the call) returned %s with errno %s, documented %s" % (
+                    op, ndump(node)[:60], pn, t[0], t[1], "/".join(sorted(errs))))
             if op == "gd" and k == "str":
                 s0 = node.split(b"\0")[0]
                 if DECIMAL.match(s0) and want != 0:
@@ -340,8 +361,8 @@ def oracle(line, meta, impl):
             if len(t) != 3:
                 return ("malformed", "unexpected driver output: " + st[:80])
             ret, new = spec_mut(op, arg, node)
-            if t[1] != "0":
-                return ("%s_%s_errno" % (op, k), "%s%s on %s set errno %s" % (op, arg, ndump(node)[:60], t[1]))
+            if t[1] != pn:         # setters and int_inc document no errno: the caller's value must survive
+                return ("%s_%s_errno%s" % (op, k, sfx), "%s%s on %s with errno %s before left errno %s" % (op, arg, ndump(node)[:60], pn, t[1]))
             if int(t[0]) != ret:
                 return ("%s_%s_ret" % (op, k), "%s%s on %s returned %s, documented %d" % (op, arg, ndump(node)[:60], t[0], ret))
             if t[2] != ndump(new):
@@ -449,7 +470,7 @@ def emit(out, tail, node, ops, kindname):
     buf = []
     prefix = []     # mutators needed to rebuild the current state from `node`
     for o in ops:
-        op, arg = o[:2], o[2:]
+        op, arg, _pre = op_split(o)
         if known_witness(op, arg, cur):
             tail.append((mkline(node, prefix + [o]), {"kind": "witness:" + known_witness(op, arg, cur)}))
             continue             # a refuted mutator is left out of the main line: the state is unchanged
@@ -490,7 +511,8 @@ def ss_strings():
           b"18446744073709551616", b"99999999999999999999"]
     tl = [b"", b"x", b".5", b"e3", b" ", b"\x009"]
     out = [w + g + d + t for w in ws for g in sg for d in dg for t in tl]
-    out += [b"inf", b"-inf", b"nan", b"infinity", b"0x10", b"1e999", b"-1e999", b"1e-999", b"4.9e-324", b".5", b"5.", b".", b"1e", b"1e+5",
+    out += [b"inf", b"-inf", b"nan", b"-nan", b"infinity", b"Infinity", b"-Infinity", b"INF", b" inf", b"infx", b"0x1p2000", b"-0x1p2000",
+            b"0x1p-2000", b"0x10", b"1e999", b"-1e999", b"1e-999", b"4.9e-324", b".5", b"5.", b".", b"1e", b"1e+5",
             b"1.7976931348623157e308", b"1.8E+308", b"\x00", b"\xff9"]
     return out
 
@@ -502,6 +524,9 @@ def small_scope(tier):
       S3 every (edge value, edge increment) pair, then every accessor
       S4 every history of exactly D4 increments over SS_INC (9) from 6 start values (prefixes are observed too)
       S5 every sequence of exactly D5 operations over a 16-operation alphabet from 8 node kinds
+      S6 "results do not depend on the errno the caller happens to have": every edge node x every accessor x every
+         non-zero errno preset (ERANGE, EINVAL, ENOMEM, a large value); every node kind x every kind of setter / inc x
+         every preset; every (edge value, edge increment) pair with the presets rotating through the calls
     quick: D4 = 4, D5 = 3; thorough: one step deeper, D4 = 5, D5 = 4."""
     import itertools
     d4, d5 = (4, 3) if tier == "quick" else (5, 4)
@@ -531,6 +556,21 @@ def small_scope(tier):
     for nd in starts:                                                 # S4
         for seq in itertools.product(SS_INC, repeat=d4):
             add(nd, ["in%d" % k for k in seq], "inchist")
+    presets = "RIMX"
+    for nd in nodes:                                                  # S6
+        for c in presets:
+            add(nd, ["@%s%s" % (c, g) for g in GETS], "errno")
+    muts = ["sl%d" % I64MIN, "su%d" % U64MAX, "si-1", "sd%016x" % B_2P63, "sb1", "in1", "in%d" % I64MIN]
+    for nd in kinds:
+        for c in presets:
+            for mu in muts:
+                add(nd, ["@%s%s" % (c, mu)] + ["@%s%s" % (c, g) for g in GETS], "errno")
+    rot = "RIMX0"
+    for (rp_, vals) in (("i", SS_I64), ("u", SS_U64)):
+        for ai, a in enumerate(vals):
+            for ki, k in enumerate(SS_I64):
+                ops = [("sl%d" if rp_ == "i" else "su%d") % a, "in%d" % k] + GETS
+                add(("i", 0), ["@%s%s" % (rot[(ai + ki + j) % 5], o) for j, o in enumerate(ops)], "errno")
     alpha = GETS + ["sl-1", "sl%d" % I64MIN, "su%d" % U64MAX, "su0", "sd%016x" % B_2P63, "sd%016x" % NANBITS, "sb1",
                     "si%d" % I32MAX, "in1", "in-1", "in%d" % I64MIN]
     mixed = [None, False, ("i", 0), ("u", I64MAX), ("d", 0, None), ("d", jvtext.dbits(1.5), b"1.5"), b"12", []]
@@ -573,10 +613,13 @@ def gen(rng, tier):
             nodes.append(("i", rng.randint(I64MIN, I64MAX) >> rng.choice([0, 0, 1, 8, 31, 32, 33, 50])))
         else:
             nodes.append(("u", rng.randint(0, U64MAX) >> rng.choice([0, 0, 1, 8, 31, 32, 33, 50])))
+    def sprinkle(ops, p=0.3):
+        """preset errno before some of the calls"""
+        return [("@%s%s" % (rng.choice("RIMX"), o)) if rng.random() < p else o for o in ops]
     for nd in nodes:
         ops = list(GETS)
         rng.shuffle(ops)
-        emit(out, tail, nd, ops, "get:" + kind(nd))
+        emit(out, tail, nd, sprinkle(ops), "get:" + kind(nd))
     # 2. set then get (every kind of node, every setter; refused setters leave the node alone)
     setnodes = [None, True, ("i", 0), ("u", 7), ("d", 0, None), ("d", jvtext.dbits(1.5), b"1.5"), b"12", [], ("o", [])]
     for _ in range(600 if quick else 12000):
@@ -597,7 +640,7 @@ def gen(rng, tier):
             g = list(GETS)
             rng.shuffle(g)
             ops += g[:rng.randint(1, 5)]
-        emit(out, tail, nd, ops, "setget")
+        emit(out, tail, nd, sprinkle(ops), "setget")
     # 3. increments: the integer lattice squared, 16 pairs per line, then random pairs and walks
     pairs = [(("i", a), k) for a in i64s for k in i64s] + [(("u", a), k) for a in u64s for k in i64s]
     for _ in range(3000 if quick else 100000):
@@ -625,7 +668,7 @@ def gen(rng, tier):
             ops.append("in%d" % k)
             if rng.random() < 0.2:
                 ops.append(rng.choice(GETS))
-        emit(out, tail, nd, ops, "inc-walk")
+        emit(out, tail, nd, sprinkle(ops), "inc-walk")
     # witness lines last: each UBSan abort restarts the driver on the rest of the script
     seen = set()
     uniq = []
